@@ -37,12 +37,14 @@ CLAIMS['C01'] = dict(
           'Translator side: for nearly every arm of translate_expr / translate_stmt the structure of the emitted opcode sequence (operand '
           'order, the opcode, jump offsets landing exactly past the skipped fragment, Bind vs BindOver) against an opaque recursive call '
           'that only appends; the `@` template parser SimpleTemplate::parse against the reference reading of a template (literal pieces '
-          'character for character, escapes, placeholder numbering, for every input string). NOT covered: the composition of the two into a '
-          'whole-program theorem, VM::run termination, the text of `@{..}` expression templates, regex, imports; the bounded stand-ins (a table of 134 reference programs, closure / self / cast / select / format families) sample those.'),
+          'character for character, escapes, placeholder numbering, for every input string), the `@{..}` template parser ExpressionTemplate::parse against the '
+          'same reading with the expression reader abstract, and the reader\'s brace-group scan (consume_expr: exactly the group up to the matching brace is taken, '
+          'the expression is read from the text between the outer braces, an `@` without a group is refused) with tokenizer + parser as one assumed function of that text. NOT covered: the composition of the two into a '
+          'whole-program theorem, VM::run termination, regex, imports; the bounded stand-ins (a table of 134 reference programs, closure / self / cast / select / format families) sample those.'),
     design_ref='DESIGN.md §5 C01',
     note=('Trusted: Verus/Z3; extraction rules listed in evidence; f64 arithmetic/comparison values uninterpreted (R6); Rc/Vec/String models of vstd; '
           'VM::fcall_impl as a pure function of (function, arguments); translate_expr only appends; caller obligations (translator invariants: '
-          'stack depth at each handler, one position per list element, programs shorter than 2^31 ops) are stated as requires and not discharged.'),
+          'stack depth at each handler, one position per list element, programs shorter than 2^31 ops, format templates shorter than 2^31 characters) are stated as requires and not discharged.'),
     technique='Verus contracts on extracted VM handlers, runtime hooks and translator arms against spec-level reference semantics',
 )
 CLAIMS['C04'] = dict(
